@@ -81,6 +81,8 @@ def generate_ops(rng, cfg, spec, tier) -> list[dict]:
             dataless["r"] = False
             if rng.random() < 0.6:
                 ops.append(restart("r"))
+                if rng.random() < 0.4:
+                    ops.append({"op": "compute", "target": "r"})
         elif r < 0.96:
             ops.append({"op": "ambient"})
         else:
@@ -235,6 +237,13 @@ def execute(cfg: dict, *, stop_at_first=True, trace=False) -> RunResult:
                         if tgt == "r":
                             cov["probes"].add("rotator restarted")
                         ask(tgt, {"q": "params"}, op)
+                        # the rebuilt object must still project data the way its twin does: asked after
+                        # every restart (mode order / sign bookkeeping only shows in transform)
+                        if not res.violations and spec.has_transform:
+                            f = cfg["fits"][st["fit"]]
+                            tq = {"q": "transform", "X": f["X"]} if spec.family == "single" else \
+                                {"q": "transform", "X": f["X"], "Y": f["Y"]}
+                            ask(tgt, tq, op)
                         if not res.violations:
                             probe(tgt, op, k=3)
                     else:
